@@ -145,8 +145,9 @@ class Engine:
         from pyIRDecoder import protocol_base
         prev = inst._last_code
         n0 = len(self.env.process_worker.queue)
+        arg = list(data)
         try:
-            c = protocol_base.IrProtocolBase.decode(inst, list(data), inst.frequency)
+            c = protocol_base.IrProtocolBase.decode(inst, arg, inst.frequency)
             r = 'ok ' + self.show_code(inst, c)
             islast = c is prev and prev is not None
         except Exception as e:
@@ -156,6 +157,8 @@ class Engine:
         del self.env.process_worker.queue[n0:]
         held = inst._last_code
         r += ' islast=%s stops=%d held=%s' % (str(islast).lower(), stops, self.show_code(inst, held) if held is not None else '-')
+        if arg != list(data):
+            r += ' ARGUMENT-MODIFIED'     # the model decodes by value (Props/C09.decode_arg_unchanged)
         self.add('idecode %s %s' % (iid, ' '.join(map(str, data))), r)
         return r
 
